@@ -447,7 +447,7 @@ func runC07(tier string) int {
 	r.Transitions = e.transitions
 	r.Evaluations = e.transitions
 	r.Distinct = int64(len(e.distinctOut))
-	r.Rule = "explicit-state BFS over call histories that never swap the randomness source (validations, encodings, rejected calls, seed, String, and NewMnemonic on the default source for all five counts); every transition executed in a fresh process; state = fingerprint of all package-level variables; the same is repeated with every environment variable the package reads set to a few values (flags, numbers, device paths); invariant checked at every process start and after every history: the value held by the package's source variable (read through the verif hook, then restored) is identical (==) to crypto/rand.Reader. Second phase, in a build whose import of crypto/rand is redirected to a position-coded stand-in stream (overlay, nothing written to the repository): every call sequence (p)^* of 300 default-source NewMnemonic calls (and of 80 calls with the stand-in going down for good inside the 3rd, 10th and 70th call: fail-closed, no other randomness afterwards) for every pattern p of length <=2 (thorough <=3) over the five counts, languages rotating: each result must be a valid sentence whose entropy occurs in the bytes the default source delivered and overlaps no window used by an earlier call (nothing mixed in, substituted or reused). For injected sources the byte-exact dependence is C06's oracle. distinct_nontrivial = distinct (operation, outcome) pairs observed"
+	r.Rule = "explicit-state BFS over call histories that never swap the randomness source (validations, encodings, rejected calls, seed, String, and NewMnemonic on the default source for all five counts); every transition executed in a fresh process; state = fingerprint of all package-level variables; the same is repeated with every environment variable the package reads set to a few values (flags, numbers, device paths); invariant checked at every process start and after every history: the value held by the package's source variable (read through the verif hook, then restored) is identical (==) to crypto/rand.Reader. Second phase, in a build whose import of crypto/rand is redirected to a position-coded stand-in stream (overlay, nothing written to the repository): every call sequence (p)^* of 300 default-source NewMnemonic calls (thorough: 20000 calls for the single-count patterns) (and of 80 calls with the stand-in going down for good inside the 3rd, 10th and 70th call: fail-closed, no other randomness afterwards) for every pattern p of length <=2 (thorough <=3) over the five counts, languages rotating: each result must be a valid sentence whose entropy occurs in the bytes the default source delivered and overlaps no window used by an earlier call (nothing mixed in, substituted or reused). For injected sources the byte-exact dependence is C06's oracle. distinct_nontrivial = distinct (operation, outcome) pairs observed"
 	r.Extra["operations"] = len(ops)
 	r.Extra["reached_fixpoint"] = r.Exhaustive
 	r.Extra["traces_validated_against_impl"] = e.transitions
@@ -666,6 +666,8 @@ func c07DefaultPath(tier string, r *Result) (nSeq, nCalls, redirected int) {
 				d := depth
 				if jobs[i].failAt >= 0 {
 					d = 80
+				} else if tier == "thorough" && len(jobs[i].pat) == 1 {
+					d = 20000 // behaviour that changes only after very many default-source calls
 				}
 				for j := 0; j < d; j++ {
 					ops = append(ops, fmt.Sprintf("%d:%d", jobs[i].pat[j%len(jobs[i].pat)], (i+j)%10))
